@@ -370,3 +370,225 @@ Definition route (m : mgr) (p : pkt) : option Z :=
 Definition routes_obs (sel : kind -> keysel) (cs : list chan_desc) : list (option Z * option Z) :=
   let m := file_all sel cs in
   map (fun c => (route m (PFrame (cd_src c) []), route m (PCredit (cd_dst c) 0))) cs.
+
+(* ------------------------------------------------ shape of the source code *)
+(* The comparison operators and integer constants of __init__ / on_pdu /
+   process_output are read from bumble/l2cap.py on every run (Gen/C07Tables.v,
+   [gen_shape]; the translator matches the whole normalised function bodies against
+   a template and fails closed on any other difference).  [r_on_pdu_g] and
+   [process_output_g] are the receiver and the sender written over such a shape;
+   Proofs/LeCoc.v shows that the model above is their instance at [model_shape]
+   and Props/C07.v that [gen_shape = model_shape]. *)
+Inductive cmp := CEq | CNe | CLt | CLe | CGt | CGe.
+Definition cmp_eval (c : cmp) (a b : Z) : bool :=
+  match c with
+  | CEq => a =? b | CNe => negb (a =? b)
+  | CLt => a <? b | CLe => a <=? b
+  | CGt => b <? a | CGe => b <=? a
+  end.
+
+Record shape := mkShape {
+  sh_thresh_div : Z;                              (* peer_credits_threshold = peer_max_credits // 2 *)
+  sh_nocredit_cmp : cmp; sh_nocredit_const : Z;   (* if self.peer_credits == 0 *)
+  sh_rx_dec : Z;                                  (* self.peer_credits -= 1 *)
+  sh_replenish_cmp : cmp;                         (* if self.peer_credits <= self.peer_credits_threshold *)
+  sh_unknown1_cmp : cmp; sh_unknown1 : Z;         (* if self.in_sdu_length == 0 (first) *)
+  sh_hdr_cmp : cmp; sh_hdr_len : Z;               (* if len(self.in_sdu) >= 2 *)
+  sh_unknown2_cmp : cmp; sh_unknown2 : Z;         (* if self.in_sdu_length == 0 (second) *)
+  sh_incomplete_cmp : cmp; sh_incomplete_hdr : Z; (* if len(self.in_sdu) < 2 + self.in_sdu_length *)
+  sh_overflow_cmp : cmp; sh_overflow_hdr : Z;     (* if len(self.in_sdu) != 2 + self.in_sdu_length *)
+  sh_sink_skip : Z;                               (* self.sink(self.in_sdu[2:]) *)
+  sh_loop_cmp : cmp; sh_loop_const : Z;           (* while self.credits > 0 *)
+  sh_tx_dec : Z;                                  (* self.credits -= 1 *)
+  sh_whole_cmp : cmp;                             (* if len(packet) == len(self.out_sdu) *)
+  sh_gather_cmp : cmp;                            (* while ... len(payload) < self.peer_mtu *)
+  sh_empty_cmp : cmp; sh_empty_const : Z          (* if len(self.out_queue[0]) == 0 *)
+}.
+
+Definition model_shape : shape :=
+  mkShape 2 CEq 0 1 CLe CEq 0 CGe 2 CEq 0 CLt 2 CNe 2 2 CGt 0 1 CEq CLt CEq 0.
+
+Definition r_account_g (sh : shape) (r : rcvr) : Z * option Z :=
+  if cmp_eval (sh_nocredit_cmp sh) (r_credits r) (sh_nocredit_const sh) then (r_credits r, None)
+  else
+    let c := r_credits r - sh_rx_dec sh in
+    if cmp_eval (sh_replenish_cmp sh) c (r_max r / sh_thresh_div sh)
+    then (r_max r, Some (r_max r - c)) else (c, None).
+
+Definition r_on_pdu_g (sh : shape) (r : rcvr) (pdu : bytes) : rres :=
+  let '(c, cr) := r_account_g sh r in
+  let buf := match r_sdu r with None => pdu | Some s => s ++ pdu end in
+  let len := if cmp_eval (sh_unknown1_cmp sh) (r_len r) (sh_unknown1 sh)
+             then (if cmp_eval (sh_hdr_cmp sh) (zlen buf) (sh_hdr_len sh) then un16 buf else r_len r)
+             else r_len r in
+  if cmp_eval (sh_unknown2_cmp sh) len (sh_unknown2 sh)
+  then mkRres (mkRcv c (r_max r) (Some buf) len) cr None false
+  else if cmp_eval (sh_incomplete_cmp sh) (zlen buf) (sh_incomplete_hdr sh + len)
+  then mkRres (mkRcv c (r_max r) (Some buf) len) cr None false
+  else if cmp_eval (sh_overflow_cmp sh) (zlen buf) (sh_overflow_hdr sh + len)
+  then mkRres (mkRcv c (r_max r) None 0) cr None true
+  else mkRres (mkRcv c (r_max r) None 0) cr (Some (zdrop (sh_sink_skip sh) buf)) false.
+
+Definition emit_g (sh : shape) (mps : Z) (s : bytes) : bytes * option bytes :=
+  let packet := ztake mps s in
+  (packet, if cmp_eval (sh_whole_cmp sh) (zlen packet) (zlen s)
+           then None else Some (skipn (length packet) s)).
+
+Fixpoint gather_g (sh : shape) (mtu room : Z) (q : list bytes) : bytes * list bytes :=
+  match q with
+  | [] => ([], [])
+  | d :: q' =>
+      if cmp_eval (sh_gather_cmp sh) (mtu - room) mtu then
+        let chunk := ztake room d in
+        let rest := zdrop room d in
+        if cmp_eval (sh_empty_cmp sh) (zlen rest) (sh_empty_const sh)
+        then let '(p, q'') := gather_g sh mtu (room - zlen chunk) q' in (chunk ++ p, q'')
+        else (chunk, rest :: q')
+      else ([], q)
+  end.
+
+(* the loop of process_output with its test evaluated on every iteration; fuel is
+   the number of iterations that send a frame *)
+Fixpoint po_g (sh : shape) (fuel : nat) (c mtu mps : Z) (q : list bytes) (sdu : option bytes) (dr : bool)
+  : list bytes * Z * list bytes * option bytes * bool :=
+  match fuel with
+  | O => ([], c, q, sdu, dr)
+  | S fuel' =>
+      if cmp_eval (sh_loop_cmp sh) c (sh_loop_const sh) then
+        match sdu with
+        | Some s =>
+            let '(packet, sdu') := emit_g sh mps s in
+            let '(fs, c2, q2, sdu2, dr2) := po_g sh fuel' (c - sh_tx_dec sh) mtu mps q sdu' dr in
+            (packet :: fs, c2, q2, sdu2, dr2)
+        | None =>
+            match q with
+            | [] => ([], c, [], None, true)
+            | _ :: _ =>
+                let '(payload, q') := gather_g sh mtu mtu q in
+                let '(packet, sdu') := emit_g sh mps (enc_sdu payload) in
+                let '(fs, c2, q2, sdu2, dr2) := po_g sh fuel' (c - sh_tx_dec sh) mtu mps q' sdu' dr in
+                (packet :: fs, c2, q2, sdu2, dr2)
+            end
+        end
+      else ([], c, q, sdu, dr)
+  end.
+
+Definition process_output_g (sh : shape) (s : sndr) : sndr * list bytes :=
+  let '(fs, c, q, sdu, dr) :=
+    po_g sh (Z.to_nat (s_credits s)) (s_credits s) (s_mtu s) (s_mps s) (s_queue s) (s_sdu s) (s_drained s) in
+  (mkSnd c (s_mtu s) (s_mps s) q sdu dr, fs).
+
+(* ------------------------------------------- n channels on one link *)
+(* Each manager holds a list of channel endpoints (position k on side A is the
+   peer of position k on side B); the two wires are shared by all channels.  A
+   delivered packet goes to the first endpoint whose table key matches: a K-frame
+   to the channel whose source CID it names (channels[handle][cid]), a credit packet
+   to the channel filed under that CID (le_coc_channels[handle][cid]); nobody: dropped. *)
+Definition accepts (e : ep) (p : pkt) : bool :=
+  match p with PFrame cid _ => cid =? e_src e | PCredit cid _ => cid =? e_key e end.
+
+Fixpoint m_recv (es : list ep) (p : pkt) : list ep * option (nat * eres) :=
+  match es with
+  | [] => ([], None)
+  | e :: es' =>
+      if accepts e p then let r := ep_step e (ERecv p) in (er_state r :: es', Some (O, r))
+      else let '(es'', o) := m_recv es' p in
+           (e :: es'', match o with Some (k, r) => Some (S k, r) | None => None end)
+  end.
+
+Fixpoint m_write (es : list ep) (i : nat) (d : bytes) : list ep * list pkt :=
+  match es, i with
+  | [], _ => ([], [])
+  | e :: es', O => let r := ep_step e (EWrite d) in (er_state r :: es', er_out r)
+  | e :: es', S i' => let '(es'', out) := m_write es' i' d in (e :: es'', out)
+  end.
+
+Record msys := mkM { m_a : list ep; m_b : list ep; m_ab : list pkt; m_ba : list pkt }.
+
+Inductive mlabel :=
+| MWriteA (i : nat) (d : bytes) | MWriteB (i : nat) (d : bytes) | MDeliverAB | MDeliverBA.
+
+Record mres := mkMres {
+  mr_state : msys;
+  mr_ab : list pkt;                  (* appended to the A->B wire *)
+  mr_ba : list pkt;
+  mr_sink_a : option (nat * bytes);  (* channel index and SDU delivered to a sink on side A *)
+  mr_sink_b : option (nat * bytes);
+  mr_dropped : bool;
+  mr_overflow : bool
+}.
+
+Definition sink_of (o : option (nat * eres)) : option (nat * bytes) :=
+  match o with
+  | Some (k, r) => match er_sink r with Some d => Some (k, d) | None => None end
+  | None => None
+  end.
+Definition out_of (o : option (nat * eres)) : list pkt :=
+  match o with Some (_, r) => er_out r | None => [] end.
+Definition dropped_of (o : option (nat * eres)) : bool :=
+  match o with Some (_, r) => er_dropped r | None => true end.
+Definition overflow_of (o : option (nat * eres)) : bool :=
+  match o with Some (_, r) => er_overflow r | None => false end.
+
+Definition m_step (st : msys) (l : mlabel) : mres :=
+  match l with
+  | MWriteA i d =>
+      let '(es, out) := m_write (m_a st) i d in
+      mkMres (mkM es (m_b st) (m_ab st ++ out) (m_ba st)) out [] None None false false
+  | MWriteB i d =>
+      let '(es, out) := m_write (m_b st) i d in
+      mkMres (mkM (m_a st) es (m_ab st) (m_ba st ++ out)) [] out None None false false
+  | MDeliverAB =>
+      match m_ab st with
+      | [] => mkMres st [] [] None None false false
+      | p :: w =>
+          let '(es, o) := m_recv (m_b st) p in
+          mkMres (mkM (m_a st) es w (m_ba st ++ out_of o)) [] (out_of o) None (sink_of o)
+                 (dropped_of o) (overflow_of o)
+      end
+  | MDeliverBA =>
+      match m_ba st with
+      | [] => mkMres st [] [] None None false false
+      | p :: w =>
+          let '(es, o) := m_recv (m_a st) p in
+          mkMres (mkM es (m_b st) (m_ab st ++ out_of o) w) (out_of o) [] (sink_of o) None
+                 (dropped_of o) (overflow_of o)
+      end
+  end.
+
+Fixpoint m_run (st : msys) (ls : list mlabel) : msys * list mres :=
+  match ls with
+  | [] => (st, [])
+  | l :: ls' =>
+      let r := m_step st l in
+      let '(st', rs) := m_run (mr_state r) ls' in
+      (st', r :: rs)
+  end.
+
+(* observables of a multi-channel step for the correspondence *)
+Definition obs_sink (o : option (nat * bytes)) : list (Z * (Z * (Z * Z) * bytes)) :=
+  match o with Some (k, d) => [(Z.of_nat k, obs_bytes d)] | None => [] end.
+Definition obs_mres (r : mres) :=
+  (map obs_pkt (mr_ab r), map obs_pkt (mr_ba r), obs_sink (mr_sink_a r), obs_sink (mr_sink_b r),
+   (map (fun e => s_drained (e_snd e)) (m_a (mr_state r)), map (fun e => s_drained (e_snd e)) (m_b (mr_state r))),
+   (mr_dropped r, mr_overflow r)).
+
+(* ------------------------------------------ a channel without a sink yet *)
+(* on_pdu starts with "if self.sink is None: return": a K-frame that reaches a
+   channel before the application has set a sink is discarded BEFORE the credit
+   accounting (and without being reassembled).  Everything else is unchanged. *)
+Definition ep_step_s (has_sink : bool) (e : ep) (v : ev) : eres :=
+  match v with
+  | ERecv (PFrame cid d) =>
+      if (cid =? e_src e) && negb has_sink then mkEres e [] None false false else ep_step e v
+  | _ => ep_step e v
+  end.
+
+Fixpoint ep_run_s (e : ep) (vs : list (bool * ev)) : ep * list eres :=
+  match vs with
+  | [] => (e, [])
+  | (hs, v) :: vs' =>
+      let r := ep_step_s hs e v in
+      let '(e', rs) := ep_run_s (er_state r) vs' in
+      (e', r :: rs)
+  end.
